@@ -54,6 +54,27 @@ def self_field_guard(rep, rel, cls, fields, lock, exempt=('__init__',)):
         ok = lock in withs
         rep.add(f'C15.guarded_by.{cls}.{field}.{fn}@{line}', 'proved' if ok else 'refuted', backend='structural', where=f'{rel}:{line} access of self.{field} in {fn}() ' + ('inside' if ok else 'OUTSIDE') + f' `with self.{lock}`',
                 solver_output='lexical enclosure resolved on the real AST')
+    # a LOCAL ALIAS of a guarded table (or of one of its entries) taken under the lock is still the shared structure: it must not be used after
+    # the lock is released (`pool = self._key_to_pool[key]` inside, `pool.pop()` outside is the same race as touching the table itself)
+    for fn in [x for x in ast.walk(c) if isinstance(x, (ast.FunctionDef, ast.AsyncFunctionDef)) and x.name not in exempt]:
+        regions = [wn for wn in ast.walk(fn) if isinstance(wn, ast.With) and any(lk(i.context_expr) for i in wn.items)]
+        inside = {id(x) for wn in regions for x in ast.walk(wn)}
+        aliases = {}
+        for wn in regions:
+            for a_ in ast.walk(wn):
+                if isinstance(a_, ast.Assign) and len(a_.targets) == 1 and isinstance(a_.targets[0], ast.Name) and any(acc(x) for x in ast.walk(a_.value)):
+                    # a value COPIED out of the table (an immutable result such as a popped item) is not an alias; a subscript / attribute of the table is
+                    v_ = a_.value
+                    if isinstance(v_, (ast.Subscript, ast.Attribute)) or (isinstance(v_, ast.Call) and isinstance(v_.func, ast.Attribute) and v_.func.attr in ('get', 'setdefault')):
+                        aliases[a_.targets[0].id] = a_.lineno
+        for nm, ln in aliases.items():
+            uses = [x for x in ast.walk(fn) if isinstance(x, ast.Name) and x.id == nm and isinstance(x.ctx, ast.Load) and id(x) not in inside and x.lineno > ln]
+            # returning the alias'ed ITEM itself to the caller hands over ownership (that is what a pool does): only dereferencing uses count
+            deref = [x for x in uses if any(isinstance(p_, (ast.Attribute, ast.Subscript, ast.Call)) and (getattr(p_, 'value', None) is x or getattr(p_, 'func', None) is x) for p_ in ast.walk(fn))]
+            deref += [x for x in uses if any(isinstance(p_, (ast.IfExp, ast.If, ast.While, ast.BoolOp, ast.UnaryOp)) and x in ast.walk(p_) for p_ in ast.walk(fn) if not isinstance(p_, (ast.FunctionDef,)))] if uses else []
+            n += 1
+            rep.add(f'C15.guarded_by.{cls}.alias.{fn.name}.{nm}@{ln}', 'proved' if not deref else 'refuted', backend='structural',
+                    where=f'{rel}:{ln} local alias `{nm}` of a guarded table entry ' + ('is only used under the lock' if not deref else f'is dereferenced / tested OUTSIDE `with self.{lock}` at line(s) {sorted({x.lineno for x in deref})[:4]}'))
     if n == 0: rep.error(f'C15: no access of {cls}.{fields} found in {rel} (extraction key no longer resolves)')
     return w
 
